@@ -135,6 +135,9 @@ def generate(rng, tier):
         keys.append(["x%d" % j, tdsl.gen_value(rng, ["leaf"], pool, positions, ("x",))])
     rng.shuffle(keys)
     plan["input"] = keys
+    if kind in ("schema", "dataclass") and rng.random() < 0.15:
+        # the data comes as one positional mapping whose keys are not all strings: Cls({...})
+        plan["posmap"] = {"intkey": rng.choice([None, 1, 7]), "value": tdsl.gen_value(rng, ["leaf"], pool, positions, ("x",))}
     plan["positional"] = rng.choice([0, 0, 1, 2]) if kind == "func" else 0
     fl = {}
     for path, lk, pid in positions:
@@ -236,6 +239,13 @@ def build(plan, dfs, collect):
                     cls.__from__(dict(kw), options=Options(**base_kw))
                 except Exception:  # noqa  (what an earlier call returns is not compared)
                     pass
+        if runtime is None and plan.get("posmap"):
+            def as_mapping(kw):
+                d = dict(kw)
+                if plan["posmap"]["intkey"] is not None:
+                    d[plan["posmap"]["intkey"]] = tdsl.build_value(plan["posmap"]["value"])
+                return d
+            return lambda pos, kw: (warm(kw), cls(as_mapping(kw)))[1]
         if runtime is None:
             return lambda pos, kw: (warm(kw), cls(**kw))[1]
         ro = Options(**runtime)
